@@ -50,6 +50,13 @@ def _run(prop, repo, tier):
     from ..framework_rules import check_helper_config
 
     check_helper_config(prop, res, repo)
+    # readings stored under a name are the readings of the indicator registered under it now: removing an indicator removes its readings
+    # (a later indicator with the same name would otherwise skip the stale entries), and chained inputs are calculated first
+    from ..framework_rules import check_registry_order
+    from ..ownership import check_hexital_purge
+
+    check_hexital_purge(prop, res, repo)
+    check_registry_order(prop, res, repo)
     res.universe = {"classes": GROUPS[prop]}
     return res, cas
 
